@@ -795,3 +795,93 @@ keep("P25", "items: enumerate over instance hoisted into a local",
     else:
         for index, item in enumerate(instance):
             for error in validator.descend(item, items, path=index):''')])
+
+
+# --------------------------------------------------------------------------- C16 / C18
+brk("B48", "create: VALIDATORS = validators (no copy)",
+    [(V, "        VALIDATORS = dict(validators)", "        VALIDATORS = validators")], {"C16": "R16.1|"})
+
+brk("B49", "extend: update the parent's table in place",
+    [(V, '''    all_validators = dict(validator.VALIDATORS)
+    all_validators.update(validators)''', '''    all_validators = validator.VALIDATORS
+    all_validators.update(validators)''')], {"C16": "R16.2|"})
+
+brk("B50", "extend: omit id_of=",
+    [(V, '''        type_checker=type_checker,
+        id_of=validator.ID_OF,
+    )''', '''        type_checker=type_checker,
+    )''')], {"C16": "R16.2|"})
+
+brk("B51", "Validator.__init__: type(self).TYPE_CHECKER = ...",
+    [(V, "                self.TYPE_CHECKER = self.TYPE_CHECKER.redefine_many(", "                type(self).TYPE_CHECKER = self.TYPE_CHECKER.redefine_many(")],
+    {"C16": "R16.3|"})
+
+brk("B52", "TypeChecker: converter=dict",
+    [(T, "    _type_checkers = attr.ib(default=pmap(), converter=pmap)", "    _type_checkers = attr.ib(default=pmap(), converter=dict)")], {"C16": "R16.4|"})
+
+brk("B53", "FormatChecker.__init__: skip the copy when formats is None",
+    [(F, '''        if formats is None:
+            self.checkers = self.checkers.copy()
+        else:''', '''        if formats is None:
+            pass
+        else:''')], {"C16": "R16.5|"})
+
+brk("B54", "draft4_format_checker = draft3_format_checker",
+    [(F, "draft4_format_checker = FormatChecker()", "draft4_format_checker = draft3_format_checker")], {"C16": "R16.6|"})
+
+brk("B54b", "extend writes the merged table back into the parent",
+    [(V, '''    if type_checker is None:
+        type_checker = validator.TYPE_CHECKER
+    elif validator._CREATED''', '''    validator.VALIDATORS = all_validators
+    if type_checker is None:
+        type_checker = validator.TYPE_CHECKER
+    elif validator._CREATED''')], {"C16": "R16.2|"})
+
+brk("B54c", "redefine_many mutates through object.__setattr__",
+    [(T, '''        return attr.evolve(
+            self, type_checkers=self._type_checkers.update(definitions),
+        )''', '''        object.__setattr__(self, "_type_checkers", self._type_checkers.update(definitions))
+        return self''')], {"C16": "R16.4|"})
+
+brk("B57", "module-level cache of resolved references filled in RefResolver.resolve",
+    [(V, '''    def resolve(self, ref):
+        """
+        Resolve the given reference.
+        """
+        url = self._urljoin_cache(self.resolution_scope, ref)
+        return url, self._remote_cache(url)''', '''    def resolve(self, ref):
+        """
+        Resolve the given reference.
+        """
+        url = self._urljoin_cache(self.resolution_scope, ref)
+        if url not in _RESOLVED:
+            _RESOLVED[url] = self._remote_cache(url)
+        return url, _RESOLVED[url]''')], {"C18": "R18.2|"})
+
+brk("B58", "lru_cache decorator on resolve_from_url at class level",
+    [(V, '''    def resolve_from_url(self, url):''', '''    @lru_cache(1024)
+    def resolve_from_url(self, url):''')], {"C18": "R18.3|"})
+
+brk("B59", "validators without a resolver share one module-level default resolver",
+    [(V, '''            if resolver is None:
+                resolver = RefResolver.from_schema(schema, id_of=id_of)
+''', '''            if resolver is None:
+                resolver = _SHARED.setdefault(id_of(schema), RefResolver.from_schema(schema, id_of=id_of))
+''')], {"C18": "R18."})
+
+brk("B59b", "scope stack is a class attribute shared by all resolvers",
+    [(V, '''        self._scopes_stack = [base_uri]''', '''        self._scopes_stack.append(base_uri)''')], {"C18": "R18.4|"})
+
+brk("B59c", "pattern keyword memoises compiled patterns in a class-level dict on the validator class",
+    [(KV, '''def pattern(validator, patrn, instance, schema):
+    if (
+        validator.is_type(instance, "string") and
+        not re.search(patrn, instance)
+    ):''', '''def pattern(validator, patrn, instance, schema):
+    cache = validator.VALIDATORS.setdefault("__patterns__", {})
+    if patrn not in cache:
+        cache[patrn] = re.compile(patrn)
+    if (
+        validator.is_type(instance, "string") and
+        not cache[patrn].search(instance)
+    ):''')], {"C18": "R18.2|", "C05": "R5.4|"})
